@@ -76,7 +76,7 @@ def run(ctx):
                         Lkv = [[k, list(v)] for k, v in zip(keys, vals)]
                         for X in (subsets(names) if not q else [rnd.choice(subsets(names))]):
                             behs.append(ctor_trace(S, S0, R, Lkv, X, 2, family='exhaustive 2 names',
-                                                   naming=rnd.choice(['int', 'str', 'tuple']), lstyle=rnd.choice(['set', 'list', 'frozenset']),
+                                                   naming=rnd.choice(['int', 'str', 'tuple', 'obj']), lstyle=rnd.choice(['set', 'list', 'frozenset']),
                                                    shuf=rnd.randrange(1 << 30)))
     ctx.exhaustive = True
     for n, count in ((3, 6000 if q else 120000), (4, 3000 if q else 60000)):
@@ -93,7 +93,7 @@ def run(ctx):
             S0 = [v for v in names + [n] if rnd.random() < 0.3]
             Lkv = [[k, list(rnd.choice(labs))] for k in names + [n] if rnd.random() < 0.6]
             X = [v for v in names if rnd.random() < 0.6]
-            behs.append(ctor_trace(S, S0, R, Lkv, X, n + 1, family='sampled %d names' % n, naming=rnd.choice(['int', 'str', 'tuple', 'mixed']),
+            behs.append(ctor_trace(S, S0, R, Lkv, X, n + 1, family='sampled %d names' % n, naming=rnd.choice(['int', 'str', 'tuple', 'mixed', 'obj', 'objmix']),
                                    lstyle=rnd.choice(['set', 'list', 'frozenset']), shuf=rnd.randrange(1 << 30),
                                    args=rnd.choice(['full', 'full', 'none-if-empty'])))
     sim = graphfam.simulate(ctx, 'MC_KripkeLib.tla', 'KripkeLib_sim.cfg', 500 if q else 10000, 40, ctx.seed + 3)
